@@ -731,6 +731,9 @@ func c08b(c *core.Ctx, oe *orderEngine) {
 			"replaying an ItemFlagBlock record must be able to roll the stable pointer forward; the function that does it (ChainDatabase.commitStableBlock via AfterScan) is not reachable from the installed write extension")
 	})
 
+	c.Clause("C08.10", "a restarted node accepts what a node that never stopped accepts — the part of it that is reloaded state: NewBlockChain refills the replay guard with every stable block inside the life-time window (the reload clause of C04.2, evaluated here as well)")
+	c.Run("guard-reload", func() { c04GuardReload(c) })
+
 	c.NotDecidedf("behaviour under an actual crash or torn write: no write is interrupted, no file truncated, no state compared; the clauses are the orderings, heeded errors and reachability facts without which some crash point certainly loses or corrupts data")
 	c.NotDecidedf("LevelDB's own durability: LevelDBDatabase.Put passes nil write options, so index entries, cursors and the stable pointer are not synced by the call that writes them (recorded as an assumption, not checked); goleveldb's recovery of its own log")
 	c.NotDecidedf("equality of a restarted and a continuous node (same blocks accepted, same hashes); that Collect hands blockCommit every changed account; correctness of CheckSum as a checksum (16 bit); races on FileQueue.Offset (D16, C19)")
